@@ -22,6 +22,7 @@ type replayCase struct {
 	Inputs  map[string]uint64 `json:"inputs"`
 	Tier    string            `json:"tier"`
 	Race    bool              `json:"race,omitempty"`
+	Stress  int               `json:"stress,omitempty"`
 }
 
 type replayFile struct {
@@ -98,6 +99,19 @@ func runNative(mod moduleSpec, pkgRel string, cases []replayCase, harnessNames m
 	return res, out.String(), runErr
 }
 
+func stressOf(v *Violation) int {
+	if v == nil {
+		return 0
+	}
+	if v.Kind == "atomicity" {
+		return 3000
+	}
+	if v.Kind == "race" && v.Stress > 20 {
+		return 20 // every round runs under the race detector
+	}
+	return v.Stress
+}
+
 func hasLine(lines []string, prefix string) bool {
 	for _, l := range lines {
 		if l == prefix || strings.HasPrefix(l, prefix+" ") {
@@ -137,7 +151,7 @@ func finish(prop, tier string, results []*harnessResult, known map[string]bool, 
 	n := 0
 	add := func(r *harnessResult, kind, tag string, in map[string]uint64, v *Violation, cw *CoverWitness) {
 		n++
-		p := &pending{c: replayCase{ID: fmt.Sprintf("%d", n), Harness: r.h.Name, Module: r.ref.mod, PkgRel: r.ref.pkgRel, Kind: kind, Tag: tag, Inputs: in, Tier: tier, Race: v != nil && v.Kind == "race"}, v: v, cov: cw, res: r}
+		p := &pending{c: replayCase{ID: fmt.Sprintf("%d", n), Harness: r.h.Name, Module: r.ref.mod, PkgRel: r.ref.pkgRel, Kind: kind, Tag: tag, Inputs: in, Tier: tier, Race: v != nil && v.Kind == "race", Stress: stressOf(v)}, v: v, cov: cw, res: r}
 		all = append(all, p)
 		k := r.ref.mod + "|" + r.ref.pkgRel
 		if p.c.Race {
@@ -198,6 +212,10 @@ func finish(prop, tier string, results []*harnessResult, known map[string]bool, 
 					ok := false
 					if p.v.Kind == "race" {
 						ok = hasLine(lines, "race-detected")
+					} else if p.v.Kind == "atomicity" {
+						// schedule-dependent: reproduced when a stress round broke one of the
+						// harness's functional assertions
+						ok = hasLine(lines, "assert-failed")
 					} else if p.v.Kind == "panic" {
 						ok = hasLine(lines, "panic")
 					} else if strings.HasPrefix(p.v.Tag, "alloc-bounded") {
@@ -249,6 +267,12 @@ func finish(prop, tier string, results []*harnessResult, known map[string]bool, 
 				lines = append(lines, fmt.Sprintf("VIOLATION property=%s replay=%s harness=%s tag=%s kind=%s %s", prop, path, p.c.Harness, p.v.Tag, p.v.Kind, p.v.Msg))
 				exit = 1
 				nviol++
+			} else if p.v.Kind == "atomicity" {
+				// conflict-serializability is sufficient for linearizability, not necessary: a
+				// non-serializable pair whose stress replays never broke a functional assertion is
+				// reported for the reader and decides nothing (the schedule exploration with the
+				// functional oracle does)
+				lines = append(lines, fmt.Sprintf("NOTE property=%s harness=%s %s: %s (no functional assertion failed in %d native stress rounds)", prop, p.c.Harness, p.v.Tag, p.v.Msg, p.c.Stress))
 			} else {
 				inconclusive(fmt.Sprintf("counterexample for %s/%s did not reproduce natively (%s); model at %s", p.c.Harness, p.v.Tag, p.v.Replayed, path))
 			}
